@@ -270,7 +270,7 @@ struct Ctx<'p> {
     used_expr_hoists: HashSet<String>,
     impl_prefix: Option<String>,
     /// R21: (edit index, outline) recorded while visiting; rendered after the item
-    pending_outlines: Vec<(usize, Outline, String, Vec<String>)>,
+    pending_outlines: Vec<(usize, Outline, String, Vec<String>, Vec<(String, usize, usize)>)>,
     outline_lits: Option<Vec<String>>,
     /// variables rewritten to `*v` inside the region being outlined: (region start, region end, names)
     deref_region: Option<(usize, usize, Vec<String>)>,
@@ -295,6 +295,54 @@ struct FnState {
     external: bool,
     /// spans of closure-chains already handled (to find outermost only)
     handled_chain_end: usize,
+    /// top-level `let x = <init>;` statements of the body (for R21b)
+    lets: Vec<LetInfo>,
+}
+
+#[derive(Clone)]
+struct LetInfo {
+    name: String,
+    stmt_end: usize,
+    init: (usize, usize),
+    pure_init: bool,
+    mutable: bool,
+    idents: Vec<String>,
+}
+
+/// R21b: an initializer that may be evaluated a second time inside an outlined method: built from names, literals, operators,
+/// field accesses, references and calls of a fixed list of query methods that take `&self` and have no effect
+fn expr_is_pure(e: &syn::Expr) -> bool {
+    const QUERIES: [&str; 22] = [
+        "contains", "peek", "is_empty", "is_null", "len", "is_none", "is_some", "is_free", "is_range_free", "is_position_free", "bits",
+        "is_ordinal", "is_fraction", "ends_with", "starts_with", "as_str", "as_bytes", "is_ok", "is_err", "intersects", "is_all", "clone",
+    ];
+    match e {
+        syn::Expr::Path(_) | syn::Expr::Lit(_) => true,
+        syn::Expr::Paren(p) => expr_is_pure(&p.expr),
+        syn::Expr::Unary(u) => expr_is_pure(&u.expr),
+        syn::Expr::Binary(b) => {
+            !matches!(
+                b.op,
+                syn::BinOp::AddAssign(_) | syn::BinOp::SubAssign(_) | syn::BinOp::MulAssign(_) | syn::BinOp::DivAssign(_) | syn::BinOp::RemAssign(_)
+                    | syn::BinOp::BitXorAssign(_) | syn::BinOp::BitAndAssign(_) | syn::BinOp::BitOrAssign(_) | syn::BinOp::ShlAssign(_) | syn::BinOp::ShrAssign(_)
+            ) && expr_is_pure(&b.left) && expr_is_pure(&b.right)
+        }
+        syn::Expr::Field(f) => expr_is_pure(&f.base),
+        syn::Expr::Reference(r) => r.mutability.is_none() && expr_is_pure(&r.expr),
+        syn::Expr::Cast(c) => expr_is_pure(&c.expr),
+        syn::Expr::MethodCall(m) => QUERIES.contains(&m.method.to_string().as_str()) && expr_is_pure(&m.receiver) && m.args.iter().all(expr_is_pure),
+        _ => false,
+    }
+}
+
+fn idents_of(ts: proc_macro2::TokenStream, out: &mut Vec<String>) {
+    for t in ts {
+        match t {
+            proc_macro2::TokenTree::Ident(i) => out.push(i.to_string()),
+            proc_macro2::TokenTree::Group(g) => idents_of(g.stream(), out),
+            _ => {}
+        }
+    }
 }
 
 fn br(s: Span) -> (usize, usize) {
@@ -462,7 +510,33 @@ impl<'p> Ctx<'p> {
                 self.insert(whole.1 - 1, format!("\n{}\n", c.spec.trim_end()));
             }
         }
+        let mut lets: Vec<LetInfo> = Vec::new();
+        if let Some(b) = block {
+            for st in &b.stmts {
+                if let syn::Stmt::Local(l) = st {
+                    let pat = match &l.pat {
+                        syn::Pat::Type(pt) => &*pt.pat,
+                        p => p,
+                    };
+                    if let (syn::Pat::Ident(pi), Some(init)) = (pat, &l.init) {
+                        if pi.by_ref.is_none() && pi.subpat.is_none() && init.diverge.is_none() {
+                            let mut ids = Vec::new();
+                            idents_of(quote::ToTokens::to_token_stream(&*init.expr), &mut ids);
+                            lets.push(LetInfo {
+                                name: pi.ident.to_string(),
+                                stmt_end: br(st.span()).1,
+                                init: br(init.expr.span()),
+                                pure_init: expr_is_pure(&init.expr),
+                                mutable: pi.mutability.is_some(),
+                                idents: ids,
+                            });
+                        }
+                    }
+                }
+            }
+        }
         self.fn_stack.push(FnState {
+            lets,
             body_start: block.map(|b| br(b.span()).0),
             strlits: Vec::new(),
             rename_self: mut_self,
@@ -1489,6 +1563,48 @@ impl<'ast, 'p> Visit<'ast> for Ctx<'p> {
                 if let Some(o) = hit {
                     let (s, e) = br(ex.span());
                     self.used_outlines.insert(o.name.clone());
+                    // R21b: locals of the enclosing function that the match reads and that are not passed as arguments are
+                    // bound again inside the outlined method, provided their initializer is a pure expression
+                    let mut rebinds: Vec<(String, usize, usize)> = Vec::new();
+                    {
+                        let mut used: Vec<String> = Vec::new();
+                        idents_of(quote::ToTokens::to_token_stream(m), &mut used);
+                        let mut argn: Vec<String> = Vec::new();
+                        for a in o.args.split(|c: char| !(c.is_alphanumeric() || c == '_')) {
+                            if !a.is_empty() {
+                                argn.push(a.to_string());
+                            }
+                        }
+                        let lets: Vec<LetInfo> = self.fn_stack.last().map(|f| f.lets.clone()).unwrap_or_default();
+                        let before: Vec<&LetInfo> = lets.iter().filter(|l| l.stmt_end <= s).collect();
+                        let mut need: Vec<String> = Vec::new();
+                        let mut work: Vec<String> = used;
+                        while let Some(id) = work.pop() {
+                            if argn.contains(&id) || need.contains(&id) {
+                                continue;
+                            }
+                            if let Some(l) = before.iter().rev().find(|l| l.name == id) {
+                                need.push(id.clone());
+                                for j in &l.idents {
+                                    work.push(j.clone());
+                                }
+                            }
+                        }
+                        for l in &before {
+                            if need.contains(&l.name) {
+                                if !l.pure_init || l.mutable {
+                                    let ln = self.line_of(s);
+                                    self.out.errors.push(format!(
+                                        "unsupported construct: the match at line {} (outlined into {}) reads the local `{}`, which is mutable or whose initializer is not a pure expression",
+                                        ln, o.name, l.name
+                                    ));
+                                } else {
+                                    rebinds.push((l.name.clone(), l.init.0, l.init.1));
+                                    self.log(s, "R21b", &format!("local `{}` (pure initializer) bound again inside the outlined method {}", l.name, o.name));
+                                }
+                            }
+                        }
+                    }
                     let idx = self.edits.len();
                     self.replace(s, e, vec![Part::Lit(format!("self.{}({})", o.name, o.args))]);
                     self.log(s, "R21", &format!("match ({} arms) outlined into method {}", m.arms.len(), o.name));
@@ -1500,7 +1616,7 @@ impl<'ast, 'p> Visit<'ast> for Ctx<'p> {
                     visit::visit_expr(self, ex);
                     let lits = std::mem::replace(&mut self.outline_lits, old_l).unwrap_or_default();
                     self.deref_region = old;
-                    self.pending_outlines.push((idx, o.clone(), fnk.clone(), lits));
+                    self.pending_outlines.push((idx, o.clone(), fnk.clone(), lits, rebinds));
                     return;
                 }
             }
@@ -2107,8 +2223,8 @@ fn main() {
         rendered.push_str(&format!("// @item {} ({}:{})\n", key, short(&plan.file), cx.line_of(s)));
         rendered.push_str(&render(&src, &cx.edits, &parents, s, e, None));
         rendered.push_str("\n\n");
-        let pend: Vec<(usize, Outline, String, Vec<String>)> = cx.pending_outlines.drain(..).collect();
-        for (idx, o, from, lits) in pend {
+        let pend: Vec<(usize, Outline, String, Vec<String>, Vec<(String, usize, usize)>)> = cx.pending_outlines.drain(..).collect();
+        for (idx, o, from, lits, rebinds) in pend {
             let mut lit_entry = String::new();
             if plan.strlit_facts && plan.strlit_named && !lits.is_empty() {
                 lit_entry.push_str("    proof { // generated: literal == word-constant equations (R18)\n");
@@ -2128,7 +2244,13 @@ fn main() {
                 cx.out.log.push(format!("{}:{} R18 {}::{} entry equations for {} string literals", short(&plan.file), cx.line_of(cx.edits[idx].start), o.method_of, o.name, lits.len()));
             }
             let (os, oe) = (cx.edits[idx].start, cx.edits[idx].end);
-            let body = render(&src, &cx.edits, &parents, os, oe, Some(idx));
+            let mut body = String::new();
+            for (name, is, ie) in &rebinds {
+                // the initializer sits at the top level of the enclosing function: render it with the rewrites that apply there
+                let pi = cx.edits.iter().enumerate().filter(|(_, ed)| ed.start <= *is && *ie <= ed.end && !(ed.start == *is && ed.end == *ie)).map(|(i, _)| i).max_by_key(|&i| cx.edits[i].start);
+                body.push_str(&format!("let {} = {};\n", name, render(&src, &cx.edits, &parents, *is, *ie, pi)));
+            }
+            body.push_str(&render(&src, &cx.edits, &parents, os, oe, Some(idx)));
             let okey = format!("{}::{}", o.method_of, o.name);
             rendered.push_str(&format!(
                 "// outlined from {} (R21): the body below is the `match` expression of that function, moved verbatim\nimpl {} {{\n// @fn {}\n{}\nfn {}{}\n{}\n{{\n{}\n{}\n}}\n}}\n\n",
